@@ -126,6 +126,21 @@ class Check(PropertyCheck):
         # serial in the quick tier (370 cases/s; a fork pool costs more than it gains on a loaded machine)
         self.parallel = tier == "thorough"
 
+    # ------------------------------------------------------------------ (T) constants regenerated from modes.py
+    CONSTS = ["SOCKS5_VERSION", "SOCKS5_METHOD_NO_AUTHENTICATION_REQUIRED", "SOCKS5_METHOD_USER_PASSWORD_AUTHENTICATION",
+              "SOCKS5_METHOD_NO_ACCEPTABLE_METHODS", "SOCKS5_ATYP_IPV4_ADDRESS", "SOCKS5_ATYP_DOMAINNAME",
+              "SOCKS5_ATYP_IPV6_ADDRESS", "SOCKS5_REP_HOST_UNREACHABLE", "SOCKS5_REP_COMMAND_NOT_SUPPORTED",
+              "SOCKS5_REP_ADDRESS_TYPE_NOT_SUPPORTED"]
+
+    def translate(self):
+        lines = ["-- generated by harness/c21.py (Check.translate) from mitmproxy/proxy/layers/modes.py; do not edit",
+                 "namespace MitmVerif.Gen.C21"]
+        for c in self.CONSTS:
+            v = getattr(modes, c, None)
+            lines.append(f"def {c} : Nat := {int(v) if isinstance(v, int) else 99999}")
+        lines += ["end MitmVerif.Gen.C21", ""]
+        return {"MitmVerif/Gen/C21.lean": "\n".join(lines)}
+
     # ------------------------------------------------------------------ implementation runner
     def run_world(self, case, items, defer):
         """items: list of bytes | 'C' | 'X'"""
